@@ -120,6 +120,12 @@ class CPCCARotator(CPCCA):
         )
 
     def _fit_algorithm(self, model) -> Self:
+        n_modes_model = model.data["components1"].sizes["mode"]
+        if self._params["n_modes"] > n_modes_model:
+            raise ValueError(
+                f"n_modes must be less than or equal to the number of modes of the model ({n_modes_model})."
+            )
+
         self.preprocessor1 = model.preprocessor1
         self.preprocessor2 = model.preprocessor2
         self.pca1 = model.pca1
